@@ -77,11 +77,11 @@ Binary(law, op) == {Case(law, Par(LPool[i]) \o <<op>> \o Par(RPool[j]), <<P("At"
 ProjCases(law, mid) ==
   {Case(law, Par(LPool[i]) \o mid \o PRhs[j].w, Par(LPool[i]) \o mid, LPool[i], PRhs[j].x, <<P("At")>>, d)
      : i \in DOMAIN LPool, j \in 1..(Len(PRhs) - 1), d \in DOMAIN DocPool}
-ListProjCases(z) ==
+ListProjCases(zzdummy) ==
   {Case("listproj", Par(LPool[i]) \o <<P("Lbracket"), P("Star"), P("Rbracket")>> \o PRhs[j].w, Par(LPool[i]), LPool[i], PRhs[j].x, <<P("At")>>, d)
      : i \in DOMAIN LPool, j \in DOMAIN PRhs, d \in DOMAIN DocPool}
 
-All(z) ==
+All(zzdummy) ==
   Binary("pipe", P("Pipe")) \cup Binary("and", P("And")) \cup Binary("or", P("Or"))
   \cup {Case("not", <<P("Not")>> \o Par(LPool[i]), <<P("At")>>, LPool[i], <<P("At")>>, <<P("At")>>, d) : i \in DOMAIN LPool, d \in DOMAIN DocPool}
   \cup {Case("mlist", <<P("Lbracket")>> \o LPool[i] \o <<P("Comma")>> \o RPool[j] \o <<P("Rbracket")>>, <<P("At")>>, LPool[i], RPool[j], <<P("At")>>, d)
